@@ -95,6 +95,15 @@ type runner struct {
 	faultMu sync.Mutex
 	opCount map[string]int
 	armed   bool
+	gates   []*storeGate
+}
+
+// storeGate holds the next store operation of a kind until the driver releases it.
+type storeGate struct {
+	op, key string
+	held    chan struct{} // closed when an operation is being held
+	release chan string   // error text ("" = succeed)
+	taken   bool
 }
 
 // Run executes one scenario and returns its trace.
@@ -252,10 +261,25 @@ func (r *runner) setup() error {
 // storeHook injects the scripted store faults (counted from the moment the pipeline is started).
 func (r *runner) storeHook(op store.Op) error {
 	r.faultMu.Lock()
-	defer r.faultMu.Unlock()
 	if !r.armed {
+		r.faultMu.Unlock()
 		return nil
 	}
+	for _, g := range r.gates {
+		if !g.taken && g.op == op.Kind && (g.key == "" || strings.HasPrefix(op.Key, g.key)) {
+			g.taken = true
+			r.faultMu.Unlock()
+			r.log.Add("StoreHeld", "op", op.Kind, "key", op.Key, "tx", op.Tx)
+			close(g.held)
+			msg := <-g.release
+			if msg != "" {
+				r.log.Add("Fault", "what", "store-"+op.Kind, "key", op.Key, "held", true)
+				return fmt.Errorf("%s", msg)
+			}
+			return nil
+		}
+	}
+	defer r.faultMu.Unlock()
 	for _, f := range r.sc.Faults {
 		if f.Op != op.Kind {
 			continue
@@ -301,7 +325,7 @@ func waitCall(c *call, d time.Duration) bool {
 
 const (
 	enableWait = 250 * time.Millisecond
-	hangBound  = 30 * time.Second
+	hangBound  = 40 * time.Second
 )
 
 func (r *runner) settle() { r.log.Quiesce(r.quiet, 200*time.Millisecond) }
@@ -426,7 +450,42 @@ func (r *runner) step(i int, st Step) {
 	case "Flush":
 		r.settle()
 		r.log.Add("TimerFire")
-		e.Pers.Flush(r.ctx)
+		// the real timer calls Flush from its own goroutine; Flush blocks while an earlier flush
+		// is still writing, so the driver must not wait for it
+		go e.Pers.Flush(r.ctx)
+		time.Sleep(200 * time.Microsecond)
+	case "HoldStore":
+		g := &storeGate{op: st.Dst, key: st.Tag, held: make(chan struct{}), release: make(chan string, 1)}
+		if g.op == "" {
+			g.op = "commit"
+		}
+		r.faultMu.Lock()
+		r.gates = append(r.gates, g)
+		r.faultMu.Unlock()
+	case "ReleaseStore":
+		var g *storeGate
+		r.faultMu.Lock()
+		for _, x := range r.gates {
+			if !isReleased(x) {
+				g = x
+				break
+			}
+		}
+		r.faultMu.Unlock()
+		if g == nil {
+			r.log.Add("Skip", "step", i, "do", st.Do, "why", "no gate")
+			return
+		}
+		select {
+		case <-g.held:
+		case <-time.After(enableWait):
+			r.log.Add("Skip", "step", i, "do", st.Do, "why", "gate not reached")
+			return
+		}
+		r.settle()
+		markReleased(g)
+		g.release <- st.Err
+		r.settle()
 	case "Sleep":
 		time.Sleep(time.Duration(st.Ms) * time.Millisecond)
 	case "Settle":
@@ -525,6 +584,7 @@ func (r *runner) pipelineStatus() string {
 func (r *runner) finalize() {
 	r.settle()
 	r.log.Add("OpenGates")
+	r.releaseAllGates()
 	r.ungateAll()
 	// let free-running flow complete: all records emitted and the log quiet
 	r.log.Quiesce(5*time.Millisecond, 3*time.Second)
@@ -609,6 +669,25 @@ func (r *runner) endEvent() {
 		perr = pl.Error
 	}
 	r.log.Add("End", "status", r.pipelineStatus(), "stored", stored, "error", perr)
+}
+
+var releasedMu sync.Mutex
+var released = map[*storeGate]bool{}
+
+func isReleased(g *storeGate) bool { releasedMu.Lock(); defer releasedMu.Unlock(); return released[g] }
+func markReleased(g *storeGate)    { releasedMu.Lock(); released[g] = true; releasedMu.Unlock() }
+
+// releaseAllGates lets every held or future store operation through.
+func (r *runner) releaseAllGates() {
+	r.faultMu.Lock()
+	gs := append([]*storeGate(nil), r.gates...)
+	r.faultMu.Unlock()
+	for _, g := range gs {
+		if !isReleased(g) {
+			markReleased(g)
+			g.release <- ""
+		}
+	}
 }
 
 func goroutineDump() string {
